@@ -27,7 +27,8 @@ RULE = ('scenario = (entry point, format {.p8,.p8.png}, destination {absent, exi
         'PNG, label file unreadable, and two failures picotool has by itself (`build --lua-format`). The copy of '
         'the finished temporary file into the destination is never faulted. Non-trivial = the fault fired and the '
         'destination existed beforehand; distinct by (scenario, cart salt, fault kind and parameters).'
-        " Further scenarios: two carts in one CLI invocation (luamin / writep8 / luafmt a x: the first output is new, the second exists; the earlier cart's output must be absent or complete after a failure) and library writes of a .p8.png with label_fname naming another file.")
+        " Further scenarios: two carts in one CLI invocation (luamin / writep8 / luafmt a x: the first output is new, the second exists; the earlier cart's output must be absent or complete after a failure) and library writes of a .p8.png with label_fname naming another file."
+        ' Faults also come as Ctrl-C (an injected KeyboardInterrupt subclass, i.e. not an Exception) in the Lua writer and at the first, a middle and the last encoder write.')
 ASSUMPTIONS = ['"producing the cart" = the run of P8Formatter.to_file / P8PNGFormatter.to_file; an I/O error while the '
                'finished bytes are copied into the destination is outside the property and not injected',
                'a call that returns success although the injected fault fired is a violation only if the destination '
